@@ -467,7 +467,8 @@ func (w *world) callMsg(r int, s string, from int, msg *pb.BCastMessage, sigs []
 	err := w.comps[ck(r, s)].VerifHandleMessage(ctx, w.peers[from-1], msg)
 	rec := w.last
 	ev := drv.Step{"ev": "Msg", "r": r, "sess": s, "from": from, "id": msg.GetId(), "pl": payloadFromAny(msg.GetMessage()).step(),
-		"sigs": descSteps(sigs), "invoked": rec.invoked, "accepted": rec.accepted, "err": err != nil}
+		"sigs": descSteps(sigs), "invoked": rec.invoked, "accepted": rec.accepted, "err": err != nil,
+		"sigset": sigSetTag(msg.GetSignatures()), "plset": anyTag(msg.GetMessage())}
 	if rec.invoked {
 		ev["cb"] = drv.Step{"from": rec.from, "id": rec.id, "pl": rec.pl.step()}
 	}
@@ -475,6 +476,31 @@ func (w *world) callMsg(r int, s string, from int, msg *pb.BCastMessage, sigs []
 		ev["why"] = err.Error()
 	}
 	w.tr.Emit(ev)
+}
+
+// sigSetTag / anyTag name the BYTES of a message's signature list and of its any-wrapped payload (information only, the
+// trace spec does not read them): the check counts, as a vacuity guard, how often a signature list that a component had
+// accepted was really presented to it again byte for byte with other payload bytes.
+func sigSetTag(sigs [][]byte) string {
+	h := sha256.New()
+	for _, b := range sigs {
+		_, _ = h.Write([]byte{byte(len(b) >> 8), byte(len(b))})
+		_, _ = h.Write(b)
+	}
+
+	return hex.EncodeToString(h.Sum(nil)[:8])
+}
+
+func anyTag(a *anypb.Any) string {
+	if a == nil {
+		return "nil"
+	}
+	h := sha256.New()
+	_, _ = h.Write([]byte{byte(len(a.GetTypeUrl()) >> 8), byte(len(a.GetTypeUrl()))})
+	_, _ = h.Write([]byte(a.GetTypeUrl()))
+	_, _ = h.Write(a.GetValue())
+
+	return hex.EncodeToString(h.Sum(nil)[:8])
 }
 
 // concurrent issues the requests one after the other, each as soon as the previous one is parked in the signing
